@@ -629,8 +629,9 @@ spifconf_shell_expand(spif_charptr_t s)
                       FREE(Command);
                       return (spif_charptr_t) NULL;
                   }
-                  Command = spifconf_shell_expand(Command);
-                  Output = (spif_charptr_t) (builtins[k].ptr) (Command);
+                  /* The nested expansion returns its argument or NULL; keep ours for FREE(). */
+                  tmp1 = spifconf_shell_expand(Command);
+                  Output = (spif_charptr_t) (builtins[k].ptr) (tmp1);
                   FREE(Command);
                   if (Output) {
                       if (*Output) {
@@ -663,8 +664,8 @@ spifconf_shell_expand(spif_charptr_t s)
                       /* No closing backquote:  stay on the terminator. */
                       pbuff--;
                   }
-                  Command = spifconf_shell_expand(Command);
-                  Output = builtin_exec(Command);
+                  tmp1 = spifconf_shell_expand(Command);
+                  Output = builtin_exec(tmp1);
                   FREE(Command);
                   if (Output) {
                       if (*Output) {
